@@ -12,6 +12,7 @@ import (
 
 	"github.com/openconfig/goyang/pkg/yang"
 	"verif/mc/core"
+	"verif/mc/gen/scale"
 	"verif/mc/ref/num"
 )
 
@@ -299,6 +300,7 @@ func shards(tier string) []string {
 			}
 			out = append(out, fmt.Sprintf("%s/%s/0", t.key(), sp))
 		}
+		out = append(out, fmt.Sprintf("%s/many-parts/0", t.key()))
 	}
 	return out
 }
@@ -315,7 +317,7 @@ func run(c *core.Ctx) {
 	fmt.Sscanf(sp[2], "%d", &k)
 	full, coreG := t.grid(c.Tier)
 	pf, pc := parts(full), parts(coreG)
-	c.Res.Bound = "restriction strings of <= 2 parts over a 12..18-value boundary grid (3 parts over a 6-value core grid), layout variants, syntactic faults; derivation chains of depth 1..3; all integer types, length, decimal64"
+	c.Res.Bound = "restriction strings of <= 2 parts over a 12..18-value boundary grid (3 parts over a 6-value core grid), layout variants, syntactic faults; derivation chains of depth 1..3; restrictions of 1..40 (80) parts, good and with a faulty first, middle or last part; all integer types, length, decimal64"
 	n := 0
 	one := func(in Input) {
 		n++
@@ -355,6 +357,40 @@ func run(c *core.Ctx) {
 	}
 	mk := func(chain ...string) Input { return Input{Type: t.Name, FD: t.FD, Chain: chain} }
 	switch sp[1] {
+	case "many-parts":
+		// restrictions of n single-value parts for every n up to 40 (thorough 80): all good, or with
+		// the first, middle or last part malformed, out of order, or outside the type; also as a
+		// restriction of a parent with the same parts
+		max := 40
+		if c.Tier == "thorough" {
+			max = 80
+		}
+		outside := "300"
+		switch {
+		case t.Name == "decimal64":
+			outside = "99999999999999999999"
+		case t.Name != "uint8" && t.Name != "int8":
+			outside = "18446744073709551616"
+		}
+		for n := 1; n <= max; n++ {
+			good := scale.RangeParts(n, 0, "")
+			one(mk(good))
+			one(mk(good, good))
+			one(Input{Type: t.Name, FD: t.FD, Chain: []string{good}, Direct: true})
+			for _, k := range []int{1, (n + 1) / 2, n} {
+				for _, bad := range []string{"oops", "90..80", outside, ""} {
+					one(mk(scale.RangeParts(n, k, bad)))
+					one(Input{Type: t.Name, FD: t.FD, Chain: []string{scale.RangeParts(n, k, bad)}, Direct: true})
+				}
+				if n > 1 {
+					// a child that drops the k-th part, and one that adds a value outside the parent
+					child := strings.Replace(" "+good+" ", fmt.Sprintf(" %d ", 2*(k-1)+1), " ", 1)
+					child = strings.Trim(strings.ReplaceAll(strings.ReplaceAll(child, "|  |", "|"), "  ", " "), " |")
+					one(mk(good, child))
+					one(mk(good, good+" | "+fmt.Sprint(2*n+2)))
+				}
+			}
+		}
 	case "d1":
 		if k == 0 {
 			for _, a := range pf {
